@@ -452,6 +452,7 @@ func c10Property(t *rapid.T) {
 	var trace []string
 	nextGroupTag := 5000
 	templates := map[int]*mTmpl{}
+	scratch := map[string][]byte{} // "msgIdx/section/tag" -> the caller's reusable value buffer
 	ensureHead := func(cm *c10msg) {
 		if _, ok := cm.m.h[8]; !ok {
 			v := []byte(rapid.SampledFrom([]string{"FIX.4.2", "FIX.4.4", "FIXT.1.1", "FIX.4.0"}).Draw(t, "begin"))
@@ -507,7 +508,37 @@ func c10Property(t *rapid.T) {
 		case "set":
 			tag := pickTag()
 			v := genValue(t, "val")
-			how := setVia(t, fm, tag, v)
+			how := ""
+			if rapid.IntRange(0, 3).Draw(t, "value-in-reused-buffer") == 0 {
+				// the caller renders values into a scratch buffer it keeps per field and hands the
+				// engine a slice of it; the next value for the same field (often of the same length)
+				// is written over the previous one before the setter is called again
+				if it, ok := sec[tag]; ok && it.grp == nil && len(it.val) > 0 && len(v) > 0 && rapid.Bool().Draw(t, "same-length") {
+					w := make([]byte, len(it.val))
+					for i := range w {
+						w[i] = v[i%len(v)]
+					}
+					v = w
+				}
+				buf := scratch[rkey(tag)]
+				if cap(buf) < len(v) {
+					buf = make([]byte, 0, len(v)+8)
+				}
+				buf = buf[:len(v)]
+				copy(buf, v)
+				scratch[rkey(tag)] = buf
+				v = append([]byte(nil), v...)
+				if rapid.Bool().Draw(t, "as-field") {
+					fm.SetField(quickfix.Tag(tag), quickfix.FIXBytes(buf))
+					how = "SetField(bytes in reused buffer)"
+				} else {
+					fm.SetBytes(quickfix.Tag(tag), buf)
+					how = "SetBytes(reused buffer)"
+				}
+				feat["value-from-reused-buffer"] = true
+			} else {
+				how = setVia(t, fm, tag, v)
+			}
 			if it, ok := sec[tag]; ok && it.grp == nil {
 				feat["overwrite"] = true
 			} else if ok {
